@@ -21,7 +21,7 @@ TXN = "self._txn_manager is not None and self._txn_manager.transactional_id is n
 IN_TXN = "self._txn_manager.state == TransactionState.IN_TRANSACTION"
 ANY = Opaque("UserValue")
 TM_MODS = ["TransactionManager.state", "TransactionManager._txn_partitions", "TransactionManager._pending_txn_partitions",
-           "TransactionManager._txn_consumer_group", "TransactionManager._pending_txn_offsets", "TransactionManager._transaction_waiter",
+           "TransactionManager._txn_consumer_groups", "TransactionManager._pending_txn_offsets", "TransactionManager._transaction_waiter",
            "TransactionManager._task_waiter", "Future.state", "Future.nres", "Future.exc"]
 
 
@@ -37,9 +37,29 @@ def _common(c):
     c.raises("not-in-a-transaction-refused-closed-timed-out-or-cancelled", "BaseException")
 
 
-@contract(MOD + ":AIOKafkaProducer.send", ["C07", "C16", "C02"])
+CLASSES["Producer"].fields["_closed"] = BOOL
+# C19 "later API calls fail with the documented stopped/closed error": stop() closes the client, after which nobody updates
+# metadata any more - a call that waits for metadata on a stopped producer would wait for ever
+STOPPED_WAITS_FOR_NOTHING = ("assert", "a-stopped-producer-does-not-wait-for-metadata-nobody-updates-any-more", "not self._closed")
+
+
+@contract(MOD + ":AIOKafkaProducer.partitions_for", ["C19"])
 def _(c):
     _common(c)
+    c.param("topic", STR)
+    c.call("self.client._wait_on_metadata", returns=Set(INT), havoc_all=True, raises=["KafkaError", "CancelledError"],
+           note="suspends until the topic's metadata is known")
+    c.raises("stopped", "ProducerClosed", when="self._closed", exact=True)
+    c.hook("before", "self.client._wait_on_metadata", [STOPPED_WAITS_FOR_NOTHING])
+    c.replay_fn = lambda model, ob=None: {"script": _AFTER_STOP_SCRIPT}
+
+
+@contract(MOD + ":AIOKafkaProducer.send", ["C07", "C16", "C02", "C19"])
+def _(c):
+    _common(c)
+    c.raises("stopped", "ProducerClosed", when="self._closed and not (value is None and key is None)", exact=True)
+    c.hook("before", "self.client._wait_on_metadata", [STOPPED_WAITS_FOR_NOTHING])
+    c.replay_fn = lambda model, ob=None: {"script": _AFTER_STOP_SCRIPT}
     for n in ("topic",):
         c.param(n, STR)
     c.param("value", Opt(ANY), default="None")
@@ -137,3 +157,40 @@ def _(c):
         ("assert", "offsets-join-only-an-open-transaction", IN_TXN),
         ("assert", "for-the-group-given", "a1 == group_id"),
     ])
+
+
+# replay: a real producer started without a cluster (bootstrap and the metadata synchroniser stubbed), stopped, then asked
+# about a topic that is not in its cached metadata
+_AFTER_STOP_SCRIPT = '''
+import asyncio, logging
+logging.disable(logging.CRITICAL)
+from unittest import mock
+from aiokafka.producer.producer import AIOKafkaProducer
+from aiokafka.errors import ProducerClosed
+async def main():
+    bad = []
+    for api in ("send", "partitions_for", "send_and_wait"):
+        p = AIOKafkaProducer(bootstrap_servers="h:1")
+        async def boot(): return None
+        p.client.api_version = (2, 0, 0)
+        async def sync(): await asyncio.sleep(3600)
+        p.client._md_synchronizer = sync
+        with mock.patch.object(type(p.client), "bootstrap", new=lambda self: boot()):
+            await p.start()
+        await p.stop()
+        call = {"send": lambda: p.send("unknown-topic", b"v"), "partitions_for": lambda: p.partitions_for("unknown-topic"),
+                "send_and_wait": lambda: p.send_and_wait("unknown-topic", b"v")}[api]
+        try:
+            await asyncio.wait_for(call(), 2)
+            bad.append("%s() on a stopped producer returned" % api)
+        except ProducerClosed:
+            pass
+        except asyncio.TimeoutError:
+            bad.append("%s() on a stopped producer, topic not in the cached metadata: no answer (waits for a metadata update nobody will make)" % api)
+        except Exception as e:
+            bad.append("%s() on a stopped producer raised %r, not ProducerClosed" % (api, e))
+    return bad
+bad = asyncio.run(main())
+VIOLATED = bool(bad)
+DETAIL = "%r" % (bad[:3],) if bad else "ok"
+'''
